@@ -293,7 +293,7 @@ def run(res, tier, seed, proofs_ok):
                             'file_bytes': len(conv.text)})
     bad, errs = run_multi('c08_tie', ['check_file', 'check_verdict',
                                       'outside_guard'], cases)
-    n_in = len(cases) - len(bad['outside_guard']) if not errs else 0
+    n_in = len(bad['outside_guard']) if not errs else 0   # indices where outside_guard = false
     res.extra['guard'] = {'cases': len(cases),
                           'inside_wf_state (hypotheses of C08_write_wf hold '
                           'on the tables handed to the writers)': n_in}
